@@ -1,26 +1,46 @@
-(* Props/C05.v — Sqrt is correctly rounded and respects the receiver's
-   precision and mode.  Statements only.
+(* Props/C05.v — the repaired Sqrt is correctly rounded and respects the
+   receiver's precision and mode.  Statements only.
 
-   `Sqrt same z x` is the model of z.Sqrt(x) (L3/Sqrt.v; `same`: z and x are the
-   same variable): Newton iteration on 1/sqrt(x) seeded by the float64 expression
-   of the code (IEEE-754 binary64 operations of L3/Bin.v), final rounding
-   multiplication, exponent re-attached by SetMantExp.  `OkR r`: normal return
-   with the receiver in state r; `NaNR r`: panic(ErrNaN).
+   `Sqrt same z x` is the model of z.Sqrt(x) after the repair (L3/Sqrt.v; `same`:
+   z and x are the same variable): Newton iteration on 1/sqrt(x0) with two guard
+   digits and truncation (sqrtInverse), the correction step sqrtRound — with
+   ulp = one unit of the last of the p+2 digits and one more digit of precision
+   on z (so that stepping over a power of ten stays exact), walk z down while
+   z^2 > x0, up while (z+ulp)^2 <= x0, add half an ulp as a sticky digit when
+   z^2 <> x0, one SetPrec to the requested precision and mode — and
+   the exponent re-attached by SetMantExp with the accuracy of that rounding.
+   `OkR r`: normal return with the receiver in state r; `NaNR r`: panic(ErrNaN);
+   `CrashR`: any other panic, or a correction loop that needs more than
+   sqrt_fuel = 200 iterations.
 
-   Proved for every receiver and operand: the special-value table and the
-   receiver's attributes.  The clause "rounded once to the receiver's precision
-   under the receiver's mode" is FALSE on the tree (known finding K1):
-   C05_sqrt_correct_refuted is a computed witness.  The full statement, kept
-   here, is checked by predicate on the implementation's outputs on every run
-   (harness/props/C05.py, the same integer-square test as sqrt_rounds_b):
+   "Rounded once" is stated without real numbers (Spec/SqrtSpec.v):
+     RoundedTo md p v r      mag r is the rational v rounded once to p digits
+                             under md (Spec/Rounding.v), acc r = sign (mag r - v);
+     IsSqrtRounding md p q r either q = v^2 for a rational v >= 0 and
+                             RoundedTo md p v r, or there are rationals
+                             lo < hi with lo^2 < q < hi^2 such that
+                             RoundedTo md p v r for EVERY rational v in
+                             (lo, hi): rounding is constant, accuracy included,
+                             on an open interval around the root.
+   C05_accuracy spells out the consequence on squares.
 
-     C05_sqrt_correct (refuted): forall same z x r, WF z -> WF x ->
-       dform x = Ffinite -> neg x = false -> Sqrt same z x = OkR r ->
-       dform r = Ffinite /\ neg r = false /\ sqrt_result_ok (dmode z) x r = true.
-     C05_sqrt_1ulp (not attempted): ... -> the result is one of the two
-       p-digit neighbours of the correctly rounded root. *)
-From Coq Require Import ZArith QArith.
-From Dec Require Import Base.QPow L3.Decimal L3.Cmp L3.Arith L3.Convert L3.Float L3.Sqrt L3.SqrtProofs.
+   The proof uses only the exit conditions of the correction loops, not the
+   accuracy of the Newton iteration.  What it needs from the Newton stage is
+   ApproxOK z1 (L3/SqrtProofs.v), in plain terms: the Newton stage returned a
+   canonical (WF) positive finite value below 10 with a bounded exponent, i.e.
+     WF z1, dform z1 = Ffinite, neg z1 = false,
+     exp z1 <= 1            (z1 < 10; the root of x0 < 10 is below 3.17),
+     - 10^6 <= exp z1       (not absurdly small),
+     mdigits (mant z1) <= prec z1 + 18   (the mantissa slice is not longer
+                                          than the precision plus one word).
+   Nothing is asked about how close z1 is to the root.  That condition is a
+   hypothesis of C05_sqrt_correct (checked by computation in the examples and
+   on every run of the differential test); C05_sqrtRound_correct is the
+   unconditional statement about the correction step. *)
+From Coq Require Import ZArith QArith List.
+From Dec Require Import Base.QPow L3.Decimal L3.Cmp L3.Arith L3.Convert L3.Float
+  Spec.Rounding Spec.SqrtSpec L3.Sqrt L3.SqrtProofs.
+Import ListNotations.
 Open Scope Z_scope.
 
 (* Sqrt(±0) = ±0 *)
@@ -47,66 +67,123 @@ Print Assumptions C05_special_negative.
    receiver's was 0), for every input on which the model returns normally *)
 Theorem C05_attrs : forall same z x z',
   Sqrt same z x = OkR z' ->
-  (dform x = Ffinite -> sqrt_prec z x <> 0) ->
+  (dform x = Ffinite -> 1 <= sqrt_prec z x <= MaxPrec) ->
   prec z' = sqrt_prec z x /\ dmode z' = dmode z.
 Proof. exact Sqrt_attrs. Qed.
 Print Assumptions C05_attrs.
 
-(* the exponent split: for finite x >= 0 with exponent b (x = 0.m * 10^b), Sqrt
-   runs the Newton iteration (sqrtInverse) on z4 = x's mantissa with exponent
-   b rem 2, receiver precision and mode — a value in [0.01, 10) with
-   x = z4 * 10^(2 * (b quot 2)) — and re-attaches b quot 2 with SetMantExp.
-   (`same = true` models z and x being the same variable.) *)
+(* the exponent split: for finite x >= 0, Sqrt runs sqrtInverse and sqrtRound on
+   x0 = x's mantissa with exponent (exp x) rem 2 and re-attaches (exp x) quot 2
+   keeping the accuracy of sqrtRound's rounding; x0 is in [0.01, 10) and
+   x = x0 * 100^((exp x) quot 2) *)
 Theorem C05_exponent : forall same z x,
-  WF x -> dform x = Ffinite -> neg x = false -> (same = true -> z = x) ->
-  exists z4,
-    Sqrt same z x = bindR (sqrtInverse z4) (fun r => SetMantExp true r r (Z.quot (exp x) 2)) /\
-    mant z4 = mant x /\ exp z4 = Z.rem (exp x) 2 /\ dform z4 = Ffinite /\ neg z4 = false /\
-    prec z4 = sqrt_prec z x /\ dmode z4 = dmode z /\
-    (mag x == mag z4 * Qpow10 (2 * Z.quot (exp x) 2))%Q /\
-    (scaled 1 (-2) <= mag z4)%Q /\ (mag z4 < scaled 1 1)%Q.
-Proof. exact Sqrt_exponent. Qed.
+  dform x = Ffinite -> neg x = false -> (same = true -> z = x) ->
+  Sqrt same z x =
+    bindR (sqrtInverse (sqrt_zN z x) (sqrt_x0 z x)) (fun z1 =>
+    bindR (sqrtRound z1 (sqrt_x0 z x) (sqrt_prec z x) (dmode z)) (fun z2 =>
+    bindR (SetMantExp true z2 z2 (Z.quot (exp x) 2)) (fun z3 => OkR (with_acc z3 (acc z2))))).
+Proof. exact Sqrt_unfold. Qed.
 Print Assumptions C05_exponent.
 
-(* K1: x = 773288910932290629180064891113.1, 30 digits, ToNearestEven: the model
-   returns a canonical 30-digit value that fails the integer-square test of
-   correct rounding *)
-Theorem C05_sqrt_correct_refuted :
-  wf_b k1_x = true /\ Sqrt false k1_z k1_x = OkR k1_r /\ wf_b k1_r = true /\
-  dform k1_r = Ffinite /\ prec k1_r = 30 /\ sqrt_result_ok ToNearestEven k1_x k1_r = false.
-Proof. exact Sqrt_not_correctly_rounded. Qed.
-Print Assumptions C05_sqrt_correct_refuted.
+Theorem C05_exponent_value : forall z x, WF x -> dform x = Ffinite ->
+  WF (with_prec (sqrt_x0 z x) (prec x)) /\
+  (mag x == mag (sqrt_x0 z x) * Qpow10 (2 * Z.quot (exp x) 2))%Q /\
+  (scaled 1 (-2) <= mag (sqrt_x0 z x))%Q /\ (mag (sqrt_x0 z x) < scaled 1 1)%Q.
+Proof. exact sqrt_x0_facts. Qed.
+Print Assumptions C05_exponent_value.
 
-(* K1 on a perfect square ("perfect squares give their exact root in every
-   mode" fails): Sqrt(9) is 2.999 in a 4-digit ToZero receiver and
-   3.000000000000000000000000000000001 in a 34-digit ToPositiveInf receiver *)
-Theorem C05_perfect_square_refuted :
-  Sqrt false (mkDec nil 0 4 ToZero Exact Fzero false) nine = OkR k1_sq_r /\
-  mant k1_sq_r = (2999000000000000000 :: nil)%list /\ exp k1_sq_r = 1 /\
-  sqrt_result_ok ToZero nine k1_sq_r = false /\
-  Sqrt false (mkDec nil 0 34 ToPositiveInf Exact Fzero false) nine = OkR k1_sq_r' /\
-  mant k1_sq_r' = (10000 :: 3000000000000000000 :: nil)%list /\ exp k1_sq_r' = 1 /\ prec k1_sq_r' = 34 /\
-  sqrt_result_ok ToPositiveInf nine k1_sq_r' = false.
-Proof. exact Sqrt_perfect_square_not_exact. Qed.
-Print Assumptions C05_perfect_square_refuted.
+(* the correction step: from ANY canonical positive approximation z with p + 2
+   digits (any rounding mode) whose exponent is at most two above the root's
+   (10^(exp z - 2) <= sqrt x), whenever sqrtRound returns, the result is sqrt(x)
+   rounded once to p digits under md, with truthful accuracy *)
+Theorem C05_sqrtRound_correct : forall z x p md r,
+  WF z -> dform z = Ffinite -> neg z = false -> prec z = p + 2 ->
+  mdigits (mant z) <= prec z + 18 ->
+  1 <= p <= 1000000000 -> - 1000000 <= exp z <= 1000 ->
+  WF x -> dform x = Ffinite -> neg x = false ->
+  (scaled 1 (2 * (exp z - 2)) <= mag x)%Q ->
+  sqrtRound z x p md = OkR r ->
+  WF r /\ dform r = Ffinite /\ neg r = false /\ prec r = p /\ dmode r = md /\
+  IsSqrtRounding md p (mag x) r /\
+  (scaled 1 (exp z - 2) <= mag r)%Q /\ (mag r <= scaled 1 (exp z + 2))%Q /\
+  mdigits (mant r) <= p + 23.
+Proof. exact sqrtRound_correct. Qed.
+Print Assumptions C05_sqrtRound_correct.
 
-(* non-vacuity: the decision procedure accepts correctly rounded roots and
-   rejects their neighbours; the model computes sqrt(4) = 2 and sqrt(2) *)
-Example C05_sqrt_rounds_b_examples :
-  sqrt_rounds_b ToNearestEven 5 2 0 14142 (-4) = true /\
-  sqrt_rounds_b ToNearestEven 5 2 0 14143 (-4) = false /\
-  sqrt_rounds_b ToPositiveInf 5 2 0 14143 (-4) = true /\
-  sqrt_rounds_b ToZero 5 2 0 14142 (-4) = true /\
-  sqrt_rounds_b ToZero 3 4 0 200 (-2) = true /\
-  sqrt_rounds_b AwayFromZero 3 4 0 201 (-2) = false /\
-  sqrt_rounds_b ToNearestEven 30 7732889109322906291800648911131 (-1) 879368472787312650299454721519 (-15) = true.
-Proof. vm_compute. repeat split. Qed.
+(* Sqrt: for every receiver and every canonical finite x >= 0, with effective
+   precision p = sqrt_prec z x <= 10^9: if the Newton stage hands a sane value
+   to the correction step (ApproxOK) and the model returns r, then r is
+   canonical, finite, non-negative, has precision p and the receiver's mode, and
+   is sqrt(x) rounded once to p digits under that mode with truthful accuracy.
+   Hypothesis on the Newton stage, in plain terms: whenever sqrtInverse returns
+   z1, z1 is a canonical positive finite value below 10 (exp z1 <= 1) with a
+   bounded exponent (>= -10^6) and a mantissa of at most prec + 18 digits. *)
+Theorem C05_sqrt_correct : forall same z x r,
+  WF x -> dform x = Ffinite -> neg x = false -> (same = true -> z = x) ->
+  0 <= prec z -> sqrt_prec z x <= 1000000000 ->
+  (forall z1, sqrtInverse (sqrt_zN z x) (sqrt_x0 z x) = OkR z1 -> ApproxOK z1) ->
+  Sqrt same z x = OkR r ->
+  WF r /\ dform r = Ffinite /\ neg r = false /\
+  prec r = sqrt_prec z x /\ dmode r = dmode z /\
+  IsSqrtRounding (dmode z) (sqrt_prec z x) (mag x) r.
+Proof. exact Sqrt_correct_partial. Qed.
+Print Assumptions C05_sqrt_correct.
 
+(* what IsSqrtRounding says on squares: the accuracy is the sign of r^2 - x; in
+   particular a result marked Exact is an exact root *)
+Theorem C05_accuracy : forall md p xq r, 1 <= p ->
+  IsSqrtRounding md p xq r ->
+  match acc r with
+  | Below => (mag r * mag r < xq)%Q
+  | Exact => (mag r * mag r == xq)%Q
+  | Above => (xq < mag r * mag r)%Q
+  end.
+Proof. exact IsSqrtRounding_accuracy. Qed.
+Print Assumptions C05_accuracy.
+
+(* ---- non-vacuity ---- *)
+(* the model returns, with the expected digits and accuracies: sqrt 4 = 2 (Exact),
+   sqrt 2 = 1.4142 (Below), sqrt 9 = 3 exactly in the two receivers where the
+   unrepaired code returned 2.999 and 3.000...001, and the 30-digit witness of K1
+   now gives 879368472787312.650299454721519 *)
 Example C05_model_examples :
-  let z := mkDec [] 0 5 ToNearestEven Exact Fzero false in
-  let four := mkDec [4000000000000000000] 1 1 ToZero Exact Ffinite false in
-  let two := mkDec [2000000000000000000] 1 1 ToZero Exact Ffinite false in
-  (exists r, Sqrt false z four = OkR r /\ mant r = [2000000000000000000] /\ exp r = 1 /\ prec r = 5 /\ dmode r = ToNearestEven) /\
-  (exists r, Sqrt false z two = OkR r /\ mant r = [1414200000000000000] /\ exp r = 1) /\
-  (exists r, Sqrt true two two = OkR r /\ mant r = [1000000000000000000] /\ exp r = 1 /\ prec r = 1 /\ dmode r = ToZero).
+  (exists r, Sqrt false ex_z5 ex_four = OkR r /\ mant r = [2000000000000000000] /\ exp r = 1 /\ prec r = 5 /\
+             dmode r = ToNearestEven /\ acc r = Exact) /\
+  (exists r, Sqrt false ex_z5 ex_two = OkR r /\ mant r = [1414200000000000000] /\ exp r = 1 /\ acc r = Below) /\
+  (exists r, Sqrt true ex_two ex_two = OkR r /\ mant r = [1000000000000000000] /\ exp r = 1 /\ prec r = 1 /\
+             dmode r = ToZero /\ acc r = Below) /\
+  (exists r, Sqrt false (mkDec [] 0 4 ToZero Exact Fzero false) ex_nine = OkR r /\
+             mant r = [3000000000000000000] /\ exp r = 1 /\ acc r = Exact) /\
+  (exists r, Sqrt false (mkDec [] 0 34 ToPositiveInf Exact Fzero false) ex_nine = OkR r /\
+             mant r = [0; 3000000000000000000] /\ exp r = 1 /\ acc r = Exact) /\
+  (exists r, Sqrt false ex_k1_z ex_k1_x = OkR r /\
+             mant r = [9945472151900000000; 8793684727873126502] /\ exp r = 15 /\ prec r = 30 /\ acc r = Below).
 Proof. vm_compute. repeat split; eexists; repeat split. Qed.
+
+(* the hypothesis of C05_sqrt_correct holds on these inputs: the Newton stage
+   returns 1.414213 (7 digits) and 0.87936847278731265029945472151948 (32 digits) *)
+Example C05_newton_sane_examples :
+  (exists z1, sqrtInverse (sqrt_zN ex_z5 ex_two) (sqrt_x0 ex_z5 ex_two) = OkR z1 /\
+              mant z1 = [1414213000000000000] /\ exp z1 = 1 /\ prec z1 = 7 /\ wf_b z1 = true /\
+              dform z1 = Ffinite /\ neg z1 = false /\ (mdigits (mant z1) <=? prec z1 + 18) = true) /\
+  (exists z1, sqrtInverse (sqrt_zN ex_k1_z ex_k1_x) (sqrt_x0 ex_k1_z ex_k1_x) = OkR z1 /\
+              mant z1 = [9945472151948000000; 8793684727873126502] /\ exp z1 = 0 /\ prec z1 = 32 /\
+              wf_b z1 = true /\ dform z1 = Ffinite /\ neg z1 = false /\
+              (mdigits (mant z1) <=? prec z1 + 18) = true).
+Proof. split; (eexists; split; [vm_compute; reflexivity|vm_compute; repeat split]). Qed.
+
+(* the former stuck input of the correction step (z one unit below a power of
+   ten, the root more than one unit above it: without the extra digit z.Set(t)
+   truncated back and the loop never ended): sqrtRound on z = 0.9999999 (7
+   digits, ToZero), x = 1.0000003, p = 5 returns 1.0000, Below *)
+Example C05_sqrtRound_power_crossing :
+  exists r, sqrtRound (mkDec [9999999000000000000] 0 7 ToZero Exact Ffinite false)
+                      (mkDec [1000000300000000000] 1 8 ToNearestEven Exact Ffinite false) 5 ToNearestEven = OkR r /\
+            mant r = [1000000000000000000] /\ exp r = 1 /\ prec r = 5 /\ dmode r = ToNearestEven /\
+            acc r = Below /\ dform r = Ffinite /\ neg r = false.
+Proof. vm_compute. eexists; repeat split. Qed.
+
+(* hence the conclusion of C05_sqrt_correct holds for sqrt 2 at 5 digits *)
+Example C05_sqrt_correct_instance :
+  exists r, Sqrt false ex_z5 ex_two = OkR r /\ IsSqrtRounding ToNearestEven 5 (mag ex_two) r.
+Proof. exact Sqrt_correct_instance. Qed.
